@@ -6,7 +6,7 @@ targets are never the stack pointer or K0.
 import AvoVerif.Props.C03
 import AvoVerif.Props.C01Tables
 namespace Avo.Alloc
-open Avo.Reg
+open Avo.Reg Avo.AllocCheck
 
 theorem targets_in_table (is : List AInstr) (A : List (Nat × Nat)) (h : allocate Avo.Gen.regs is = .ok A) :
     TargetsInTable Avo.Gen.regs A := by
@@ -19,11 +19,29 @@ theorem targets_in_table (is : List AInstr) (A : List (Nat × Nat)) (h : allocat
 `AllocateRegisters` succeeds with allocation `A`, then every operand register
 that `BindRegisters` can bind satisfies the statement `BoundOK` (physical;
 author-chosen registers unchanged; one assignment per virtual, the same-width
-view of it, same class) — and a register that cannot be bound makes
-`VerifyAllocation` fail (`verifyBound_false_of_unbound`). -/
+view of it, of the same class as the physical id AND as the virtual register) — and a register that cannot be
+bound makes `VerifyAllocation` fail (`verifyBound_false_of_unbound`). -/
 theorem compile_bound_ok (is : List AInstr) (A : List (Nat × Nat)) (h : allocate Avo.Gen.regs is = .ok A)
     (o b : R) (hb : bindReg Avo.Gen.regs A o = some b) : BoundOK Avo.Gen.regs A o b :=
-  bindReg_ok _ A o b regs_idsDetermined (targets_in_table is A h) hb
+  bindReg_ok _ A o b regs_idsDetermined (targets_in_table is A h)
+    (sameClass_of_shape A (avo_alloc_valid_installed is A h #[] (by intro c hc; simp at hc)).2) hb
+
+/-- Non-vacuity of `compile_bound_ok` / `compile_targets_unrestricted`: a two-instruction function with two
+simultaneously live virtual GP registers, one read through its high-byte view, is allocated by the model and the
+high-byte view binds to a register that has one. -/
+def exampleFn : List AInstr :=
+  [⟨[⟨257, 15⟩], [⟨257, 15⟩], [(257, 15)], [true]⟩,
+   ⟨[⟨65793, 15⟩], [⟨65793, 15⟩], [(257, 15), (65793, 15)], [true]⟩,
+   ⟨[⟨257, 2⟩, ⟨65793, 1⟩], [⟨65793, 1⟩], [], [true, true]⟩]
+
+theorem exampleFn_allocates : allocate Avo.Gen.regs exampleFn = .ok [(257, 256), (65793, 65792)] := by
+  have h : (allocate Avo.Gen.regs exampleFn).toOption = some [(257, 256), (65793, 65792)] := by decide +kernel
+  cases hx : allocate Avo.Gen.regs exampleFn with
+  | error e => rw [hx] at h; simp [Except.toOption] at h
+  | ok a => rw [hx] at h; simp [Except.toOption] at h; rw [h]
+
+example : BoundOK Avo.Gen.regs [(257, 256), (65793, 65792)] ⟨257, 2⟩ ⟨256, 2⟩ :=
+  compile_bound_ok exampleFn _ exampleFn_allocates ⟨257, 2⟩ ⟨256, 2⟩ (by decide +kernel)
 
 theorem candidate_row_kind (tbl : List RegRow) (k p : Nat) (h : p ∈ candidates tbl k) :
     ∃ r ∈ tbl, r.id = p ∧ r.kind = k := by
@@ -63,5 +81,10 @@ theorem compile_targets_unrestricted (is : List AInstr) (A : List (Nat × Nat))
   · exact absurd hid h1
   · exact absurd (hkind.trans hidk) h1
   · exact h1
+
+/-- Non-vacuity of `compile_targets_unrestricted` (the hypotheses are satisfiable: RCX is a target of `exampleFn`). -/
+example : ∀ row ∈ Avo.Gen.regs, row.id = 65792 → row.kind = idKind 65792 → row.info &&& infoRestricted = 0 :=
+  fun row hrow hid hk =>
+    compile_targets_unrestricted exampleFn _ exampleFn_allocates (65793, 65792) (by simp) row hrow hid hk
 
 end Avo.Alloc
